@@ -31,7 +31,7 @@ def item_run(args):
            'steps': out['steps'], 'sim_time': out['sim_time'], 'fired': out['fired'], 'stats': out['stats'],
            'njobs': len(c17.owned_jobs(cfg)), 'cpus': cfg['cpus'], 'cache': cfg['cache'], 'real': cfg['model']['kind'].startswith('real:'),
            'nonfifo': out['nonfifo'], 'qdepth': out['qdepth'], 'sched_digest': out['sched_digest'],
-           'split': cfg['split_jobs'], 'exitcodes': out['worker_exitcodes']}
+           'split': cfg['split_jobs'], 'exitcodes': out['worker_exitcodes'], 'policy': cfg.get('policy', 'des')}
     if idx < 3:
         res['sample'] = {'cfg': cfg, 'schedule_prefix': log[:40], 'outcome': out['outcome'], 'exc_type': out.get('exc_type')}
     if v is not None:
@@ -207,6 +207,7 @@ def minimise_sim(viol, budget_s=60):
         best['decisions'] = d
     muts = []
     muts.append(lambda c: c.update(buggify=0.0))
+    muts.append(lambda c: c.update(policy='des'))
     muts.append(lambda c: c.update(dur=[1e-3, 1e-3]))
     muts.append(lambda c: c.update(speeds={}, main_speed=1.0, profile='uniform'))
     muts.append(lambda c: c.update(spawn=False))
@@ -361,6 +362,7 @@ def main(tier, root, budget_s=None, replay=None):
             agg['runs_with_producer_blocked_on_full_queue'] += 1
         if r['split'] > 1:
             agg['split_job_runs'] += 1
+        agg['policy_' + r.get('policy', 'des')] += 1
         for f in r['fired']:
             faults['%s:%s' % (f['kind'], f.get('exc'))] += 1
         for k, v in r['stats'].items():
@@ -489,7 +491,8 @@ def main(tier, root, budget_s=None, replay=None):
         'probes': {k[5:]: v for k, v in agg.items() if k.startswith('stat_')} | {
             'runs_with_out_of_order_completion': agg['runs_with_out_of_order_completion'],
             'runs_with_producer_blocked_on_full_queue': agg['runs_with_producer_blocked_on_full_queue'],
-            'split_job_runs': agg['split_job_runs'], 'real_model_runs': agg['real_model_runs']},
+            'split_job_runs': agg['split_job_runs'], 'real_model_runs': agg['real_model_runs'],
+            'scheduling_policy_runs': {'discrete_event_time_order_with_buggify': agg['policy_des'], 'pct_priorities': agg['policy_pct']}},
         'f5_dead_worker_outcomes': dict(f5),
         'real_vs_stub': {'real': ['dadi.DFE.Cache1D/Cache2D (constructor, _single_process, _multiple_processes, _worker_sfs, merge, integrate*, mixture*)',
                                   'DFE.Vourlaki_mixture', 'DFE.PDFs (compiled, rebuilt from the tree)', 'Numerics.make_extrap_func', 'Spectrum + its pickler',
